@@ -35,6 +35,11 @@ M = [
  ('number-lt-harmless', 'src/number.rs', 'self.mantissa <= F::MAX_MANTISSA_FAST_PATH', 'self.mantissa < F::MAX_MANTISSA_FAST_PATH', [], 'harmless'),
  ('table-lemire-bit', 'src/table_lemire.rs', None, None, ['C14'], 'break'),   # filled below
  ('simple-trim-swap', 'examples/simple.rs', None, None, ['C19'], 'break'),
+ ('harmless-lemire-umax', 'src/lemire.rs', 'if lo == 0xFFFF_FFFF_FFFF_FFFF {', 'if lo == u64::MAX {', [], 'harmless'),
+ ('harmless-lemire-decline-more', 'src/lemire.rs', 'if lo == 0xFFFF_FFFF_FFFF_FFFF {', 'if lo >= 0xFFFF_FFFF_FFFF_FFF0 {', [], 'harmless'),
+ ('harmless-rounding-min', 'src/rounding.rs', 'cb(fp, shift.min(64));', 'cb(fp, if shift > 64 { 64 } else { shift });', [], 'harmless'),
+ ('harmless-slow-neg', 'src/slow.rs', 'if exponent >= 0 {', 'if !(exponent < 0) {', [], 'harmless'),
+ ('harmless-bell-more-errors', 'src/bellerophon.rs', '    errors += error_halfscale();\n\n    // Normalize the floating point (and the errors).', '    errors += error_halfscale() + 2;\n\n    // Normalize the floating point (and the errors).', [], 'harmless'),
  ('bell-halfscale-large', 'src/bellerophon.rs', '    errors += error_halfscale();\n\n    // Normalize the floating point (and the errors).', '    errors += 1;\n\n    // Normalize the floating point (and the errors).', ['C11'], 'break'),
 ]
 
@@ -98,7 +103,7 @@ def make_patch(name, fn, old, new):
 def run_one(m):
     name, fn, old, new, props, kind = m
     patch = make_patch(name, fn, old, new)
-    run_props = props if props else ['C01', 'C02', 'C06', 'C09']
+    run_props = props if props else ['C01', 'C02', 'C05', 'C07', 'C11', 'C18']
     out = '/var/tmp/mutout/' + name
     shutil.rmtree(out, ignore_errors=True)
     t = time.time()
